@@ -3,6 +3,7 @@
 restore /repo, and report which rule caught it.  Usage: tools/run_seeds.py [name-substring ...]"""
 import json, os, subprocess, sys
 VERIF = os.path.dirname(os.path.dirname(os.path.abspath(__file__)))
+REPO = os.environ.get("FV_REPO", "/repo")
 sel = sys.argv[1:]
 rows = []
 for name in sorted(os.listdir(os.path.join(VERIF, "seeded"))):
@@ -11,10 +12,10 @@ for name in sorted(os.listdir(os.path.join(VERIF, "seeded"))):
         continue
     meta = json.load(open(os.path.join(d, "meta.json")))
     props = [meta["property"]] + meta.get("also_breaks", [])
-    st = subprocess.run(["git", "-C", "/repo", "status", "--porcelain"], capture_output=True, text=True).stdout.strip()
+    st = subprocess.run(["git", "-C", REPO, "status", "--porcelain"], capture_output=True, text=True).stdout.strip()
     if st:
         print("refusing: /repo not clean:", st); sys.exit(2)
-    r = subprocess.run(["git", "-C", "/repo", "apply", os.path.join(d, "patch.diff")])
+    r = subprocess.run(["git", "-C", REPO, "apply", os.path.join(d, "patch.diff")])
     if r.returncode != 0:
         rows.append((name, "-", "PATCH DOES NOT APPLY", "")); continue
     try:
@@ -25,7 +26,7 @@ for name in sorted(os.listdir(os.path.join(VERIF, "seeded"))):
             rules = [l.strip() for l in p.stdout.splitlines() if l.startswith("  rule=")]
             rows.append((name, pid, "CAUGHT" if p.returncode == 1 else ("MISSED rc=%d" % p.returncode), "; ".join(rules[:3])))
     finally:
-        subprocess.run(["git", "-C", "/repo", "checkout", "--", "."])
+        subprocess.run(["git", "-C", REPO, "checkout", "--", "."])
 for r in rows:
     print("%-42s %-4s %-12s %s" % r)
 rp = os.path.join(VERIF, "seeded", "RESULTS.json")
